@@ -847,7 +847,9 @@ fn exec_op(ctx: &mut Ctx<'_>, op: &Op) -> Res {
             Res::Unit
         }
         (_, Op::Collect(kv, hint)) => {
-            DEFAULT_HASH.with(|c| c.set(sh.hash));
+            // (FromIterator builds its own hasher: the identity hash, as `SimBuild::default()` on a
+            // pool thread always was; up to 200 items per collect are sized for that)
+            DEFAULT_HASH.with(|c| c.set(HashKind::Identity));
             let items: Vec<(Key, Val)> = kv.iter().map(|(k, v)| (Key::new(*k), Val::new(*v))).collect();
             let m: Map = if *hint { items.into_iter().collect() } else { items.into_iter().filter(|_| true).collect() };
             let mut out = Vec::new();
